@@ -80,6 +80,11 @@ func (fst *FSTree) buildFilePath(key string, checkKeyLength bool) (string, error
 	if !strings.HasPrefix(dstPath, fst.basePath+string(filepath.Separator)) && (checkKeyLength || dstPath != fst.basePath) {
 		return "", fmt.Errorf("fstree: key integrity check failed, compiled path is %s", dstPath)
 	}
+	// A record key must be a clean relative path: Join() cleans the path, so that different keys
+	// ("a/b", "a//b", "a/./b", "a/b/", "a/x/../b") would otherwise name the same file.
+	if checkKeyLength && dstPath != fst.basePath+string(filepath.Separator)+filepath.FromSlash(key) {
+		return "", fmt.Errorf("fstree: key is not a clean path: %s", key)
+	}
 	// return
 	return dstPath, nil
 }
